@@ -99,7 +99,7 @@ def check_config(chk, prog, cfg):
             for v_, other in ((a0, a1), (a1, a0)):
                 if v_[0] == "var" and other[0] == "index":
                     ini = b.var_init(v_[1])
-                    if len(ini) == 1 and ini[0][0] == "call" and last(ini[0][1]["name"]) == "placeholder_type":
+                    if len(ini) == 1 and ini[0][0] == "call" and "placeholder" in last(ini[0][1]["name"]) and not ini[0][2]:
                         entry = v_
                         entry_init = ("call", dict(ct_[1]), (("ref", True, other),))
                         swap_form = ct_
@@ -157,7 +157,8 @@ def check_config(chk, prog, cfg):
                W(len_bb), "len(new_types) in bb%d, push in bb%d" % (len_bb, push_bb), cfg)
     # pushed value is the placeholder (a fresh value, not the entry)
     pv = b.operand_term(pushes[0][1]["args"][1])
-    chk.expect(pv[0] == "call" and last(pv[1]["name"]) == "placeholder_type" and not pv[2], "R10.O",
+    # (a nullary function of the crate: a value that cannot depend on the entry or on anything taken from the old registry)
+    chk.expect(pv[0] == "call" and pv[1]["name"].startswith("scale_info::") and not pv[2] and "placeholder" in last(pv[1]["name"]), "R10.O",
                "retain_type:push-placeholder", W(push_bb), "pushed value: %s" % path_str(pv), cfg)
 
     # lookup first: get(&id) dominates every other call and every store; result returned on Some
